@@ -1,4 +1,5 @@
 import PegVerif.Proofs.BoundaryEval
+import PegVerif.Proofs.NonVacuity
 /-
   C04 – no panic and no split UTF-8 sequence on any input string.
 
@@ -83,5 +84,121 @@ theorem C04_invariant (env : Env) (cs : List Char) (hx : GoodExterns env.hooks) 
     (name : String) (s : St) (g : Global) {r g'} (h : (eval env n).rule name s g = some (r, g'))
     (hs : BSt' cs s) (hc : CacheB cs g) : ResB cs r ∧ CacheB cs g' :=
   (eval_boundary env cs hx n).2 name s g r g' h hs hc
+
+/-! ## non-vacuity (BEGIN) -/
+namespace C04_nv
+open Peg.NV
+
+/-- `At` from its (decidable) unfolding -/
+theorem at_of {cs pre rem : List Char} {s : St}
+    (h : (cs = pre ++ rem ∧ s.off = (enc pre).length ∧ s.rest = enc rem)) : At cs pre rem s := h
+
+/-! the matchers on the text `"aé€"` (1-, 2- and 3-byte characters), cursor after `a` -/
+def cs : List Char := ['a', 'é', '€']
+def s1 : St := ⟨enc ['é', '€'], 1, none⟩
+theorem bst1 : BSt cs s1 := (at_of (pre := ['a']) (rem := ['é', '€']) (by decide)).bst
+
+example : ∃ s', parseChar s1 = .ok 'é' s' ∧ s'.off = 3 ∧ BSt cs s' := ⟨_, rfl, rfl, C04_parseChar bst1 rfl⟩
+example : ∃ s', parseCharacterLiteral s1 'é' = .ok 'é' s' ∧ s'.off = 3 ∧ BSt cs s' :=
+  ⟨_, rfl, rfl, C04_parseCharacterLiteral (c := 'é') bst1 rfl⟩
+example : ∃ s', parseCharacterRange s1 'à' 'ÿ' = .ok 'é' s' ∧ s'.off = 3 ∧ BSt cs s' :=
+  ⟨_, rfl, rfl, C04_parseCharacterRange (lo := 'à') (hi := 'ÿ') bst1 rfl⟩
+example : ∃ s', parseStringLiteral s1 ['é', '€'] = .ok () s' ∧ s'.off = 6 ∧ BSt cs s' :=
+  ⟨_, rfl, rfl, C04_parseStringLiteral (l := ['é', '€']) bst1 rfl⟩
+example : ∃ s', parseWhitespace s1 = .ok () s' ∧ s'.off = 1 ∧ BSt cs s' := ⟨_, rfl, rfl, C04_parseWhitespace bst1 rfl⟩
+/-- the case-insensitive matchers on `"Ab€"` at offset 0, with ASCII literals -/
+def cs2 : List Char := ['A', 'b', '€']
+theorem bst2 : BSt cs2 (St.new (enc cs2)) := (at_of (pre := []) (rem := cs2) (by decide)).bst
+example : ∃ s', parseStringLiteralInsensitive (St.new (enc cs2)) ['a', 'b'] = .ok () s' ∧ s'.off = 2 ∧ BSt cs2 s' :=
+  ⟨_, rfl, rfl, C04_parseStringLiteralInsensitive (l := ['a', 'b']) (by decide) bst2 rfl⟩
+example : ∃ s', parseCharacterLiteralInsensitive (St.new (enc cs2)) 'a' = .ok 'a' s' ∧ s'.off = 1 ∧ BSt cs2 s' :=
+  ⟨_, rfl, rfl, C04_parseCharacterLiteralInsensitive (c := 'a') (by decide) bst2 rfl⟩
+example : parseEndOfInput ⟨[], 6, none⟩ = .ok () ⟨[], 6, none⟩ ∧ BSt cs ⟨[], 6, none⟩ :=
+  ⟨rfl, C04_parseEndOfInput (s := ⟨[], 6, none⟩) (at_of (pre := cs) (rem := []) (by decide)).bst rfl⟩
+example : ∀ m, parseChar s1 ≠ .panic m := (C04_matchers_never_panic bst1).1
+/-- the guard rejects `i'é'` -/
+example : ∃ msg, compileLit true [.chr 'é'] = .err msg := C04_guard [.chr 'é'] ['é'] rfl (by decide)
+
+/-! the whole evaluator: a grammar with a `@string @position` rule over multi-byte literals, a user `@extern`
+    that consumes one character of any width, and the builtin `char` in a closure
+
+    ```
+    @export @position T = s:Str x:Any cs:{char} ;
+    @string @position Str = "é€" ;
+    @extern(any) Any ;
+    ``` -/
+def hooksAny : Hooks :=
+  { extern := fun _ bs u => match decodeHead bs with
+      | some c => (.ok (.ext "any" c.toNat, c.utf8Size), u)
+      | none => (.error "end of input", u)
+    check := fun _ _ u => (true, u)
+    charCheck := fun _ _ => true }
+
+def ruleT : Rule := ⟨[.export, .position], "T",
+  .choice [.seq [.field (some (.ident "s")) false "Str", .field (some (.ident "x")) false "Any",
+                 .closure (.choice [.seq [.field (some (.ident "cs")) false "char"]]) false]]⟩
+def ruleStr : Rule := ⟨[.string, .position], "Str", .choice [.seq [.lit false [.chr 'é', .chr '€']]]⟩
+def envT : Env :=
+  { g := ⟨[.rule ruleT, .rule ruleStr, .externRule ⟨["any"], none, "Any"⟩]⟩, settings := {}, hooks := hooksAny, nf := 10 }
+
+/-- the hypotheses on the user functions hold, and the extern really returns `Ok` with a 2-byte advance on `"ßz"` -/
+theorem goodX : GoodExterns envT.hooks := by
+  intro f rem u v adv u' h
+  cases rem with
+  | nil => simp [envT, hooksAny, enc_nil, decodeHead_nil] at h
+  | cons c rest =>
+    simp only [envT, hooksAny, decodeHead_enc_cons, Prod.mk.injEq, Except.ok.injEq] at h
+    refine ⟨[c], by simp, ?_⟩
+    rw [enc_singleton, String.length_utf8EncodeChar]
+    exact h.1.2.symm
+theorem valsX (cs : List Char) : ExternValsB cs envT.hooks := by
+  intro f bs u v adv u' h
+  simp only [envT, hooksAny] at h
+  split at h
+  · simp only [Prod.mk.injEq, Except.ok.injEq] at h
+    rw [← h.1.1]; exact .ext _ _
+  · simp at h
+example : (match (envT.hooks.extern "any" (enc ['ß', 'z']) 0).1 with
+    | .ok (.ext _ n, adv) => n == 223 && adv == 2 | _ => false) = true := by decide
+
+/-- `"é€ßz"`: 2+3 bytes for `Str`, 2 bytes for the extern, 1 byte for `char` -/
+def txt : List Char := ['é', '€', 'ß', 'z']
+theorem run_some : (parseAdvanced envT 20 "T" (enc txt) 0).isSome = true := by decide
+example : show' (parseAdvanced envT 20 "T" (enc txt) 0) =
+    some ("T { s: Str { string: S\"c3a9e282ac\", position: 0..5 }, x: any(223), cs: [C'7a'], position: 0..8 }", 8) := by
+  decide
+
+example : ∀ m, ((parseAdvanced envT 20 "T" (enc txt) 0).get run_some).1 = .panic m → ¬ RuntimePanic m :=
+  C04_no_runtime_panic envT txt goodX "T" 20 0 (run_eq run_some)
+example : ∃ v s g, parseAdvanced envT 20 "T" (enc txt) 0 = some (.ok v s, g) ∧ s.off = 8 ∧
+    IsBoundary txt s.off ∧ s.off ≤ (enc txt).length ∧ ValB txt v := by
+  obtain ⟨v, s, g, h, hp⟩ := ok_of (o := parseAdvanced envT 20 "T" (enc txt) 0) (fun _ s _ => s.off == 8) (by decide)
+  have hb := (C04_offsets_on_boundaries envT txt goodX "T" 20 0 h).1 v s rfl
+  exact ⟨v, s, g, h, by simpa using hp, hb.1, hb.2, C04_values_on_boundaries envT txt goodX (valsX txt) "T" 20 0 h v s rfl⟩
+
+/-- a failing input, `"é€"`: `Str` matches, the extern fails at end of input – the error is at byte 5 (not 0),
+    a boundary -/
+def txt2 : List Char := ['é', '€']
+example : reported (parseAdvanced envT 20 "T" (enc txt2) 0) = some ⟨5, .externRuleFailed "end of input"⟩ := by decide
+example : ∃ e g, parseAdvanced envT 20 "T" (enc txt2) 0 = some (.err e, g) ∧ e.pos = 5 ∧
+    IsBoundary txt2 e.pos ∧ e.pos ≤ (enc txt2).length := by
+  obtain ⟨e, g, h, hp⟩ := err_of (o := parseAdvanced envT 20 "T" (enc txt2) 0) (fun e _ => e.pos == 5) (by decide)
+  have hb := (C04_offsets_on_boundaries envT txt2 goodX "T" 20 0 h).2 e rfl
+  exact ⟨e, g, h, by simpa using hp, hb.1, hb.2⟩
+
+/-- `C04_invariant`: the extern rule `Any` called in the middle (offset 5, a recorded furthest error at 5) -/
+def mid : St := ⟨enc ['ß', 'z'], 5, some ⟨5, .expectedEoi⟩⟩
+theorem mid_b : BSt' txt mid :=
+  ⟨(at_of (pre := ['é', '€']) (rem := ['ß', 'z']) (by decide)).bst, fun f hf => by
+    cases hf; exact ⟨2, by decide, by decide⟩⟩
+theorem any_some : ((eval envT 5).rule "Any" mid (Global.init 0)).isSome = true := by decide
+example : ResB txt (((eval envT 5).rule "Any" mid (Global.init 0)).get any_some).1 :=
+  (C04_invariant envT txt goodX 5 "Any" mid (Global.init 0) (run_eq any_some) mid_b
+    (fun k r h => by simp [Global.init, Global.lookup] at h)).1
+example : (match (eval envT 5).rule "Any" mid (Global.init 0) with | some (.ok _ s, _) => s.off == 7 | _ => false) = true := by
+  decide
+
+end C04_nv
+/-! ## non-vacuity (END) -/
 
 end Peg.Props
